@@ -535,3 +535,130 @@ Proof.
   exists s0. split; [now exists legacy_reader_trace|].
   vm_compute in E. injection E as <-. repeat split.
 Qed.
+
+(** * Liveness under weak fairness *)
+
+Section Fair.
+Variable g : cfg.
+Hypothesis g_guarded : guarded g = true.
+
+(** An infinite schedule; an action that is not enabled when its turn comes
+    is skipped. *)
+Definition step_or_stay (s : state) (a : action) : state :=
+  match Shutdown.step g s a with Some s' => s' | None => s end.
+
+Fixpoint run_n (sched : nat -> action) (s0 : state) (n : nat) : state :=
+  match n with
+  | O => s0
+  | S k => step_or_stay (run_n sched s0 k) (sched k)
+  end.
+
+Definition caller_finished (s : state) (c : N) : bool :=
+  match getc c (callers s) with Some x => finished x | None => false end.
+
+Definition takes_step (sched : nat -> action) (s0 : state) (c : N) (m : nat) : Prop :=
+  is_caller_step c (sched m) = true /\
+  Shutdown.step g (run_n sched s0 m) (sched m) <> None.
+
+(** Weak fairness towards caller [c]: again and again, [c] is finished, or
+    is not enabled, or takes a step. *)
+Definition fair (sched : nat -> action) (s0 : state) (c : N) : Prop :=
+  forall n, exists m, (n <= m)%nat /\
+    (caller_finished (run_n sched s0 m) c = true \/
+     caller_enabled g (run_n sched s0 m) c = false \/
+     takes_step sched s0 c m).
+
+Lemma run_n_done sched s0 n : serve s0 = SDone -> serve (run_n sched s0 n) = SDone.
+Proof.
+  intros H. induction n as [|n IH]; cbn [run_n]; [exact H|].
+  unfold step_or_stay. destruct (Shutdown.step g _ _) eqn:E; [|exact IH].
+  eapply serve_done_stable; eassumption.
+Qed.
+
+Lemma run_n_measure sched s0 c : forall d n x,
+  getc c (callers (run_n sched s0 n)) = Some x ->
+  exists x', getc c (callers (run_n sched s0 (d + n)%nat)) = Some x' /\
+             (measure x' <= measure x)%nat.
+Proof.
+  induction d as [|d IH]; intros n x Hx.
+  - exists x. split; [exact Hx|lia].
+  - destruct (IH n x Hx) as (x1 & G1 & G2). cbn [plus run_n]. unfold step_or_stay.
+    destruct (Shutdown.step g (run_n sched s0 (d + n)%nat) (sched (d + n)%nat)) as [s'|] eqn:E.
+    + destruct (is_caller_step c (sched (d + n)%nat)) eqn:Ec.
+      * destruct (own_step_decreases g _ _ _ c x1 E Ec G1) as (x2 & H1 & H2 & _).
+        exists x2. split; [assumption|lia].
+      * destruct (other_step_keeps g _ _ _ c x1 E Ec G1) as (x2 & H1 & H2 & _).
+        exists x2. split; [assumption|lia].
+    + exists x1. split; [assumption|lia].
+Qed.
+
+(** After serve has exited, under weak fairness every caller finishes: its
+    call returns and, for closeAll, the front connection is closed. *)
+Theorem fair_caller_finishes sched s0 c x :
+  serve s0 = SDone -> getc c (callers s0) = Some x -> fair sched s0 c ->
+  exists n, caller_finished (run_n sched s0 n) c = true.
+Proof.
+  intros Hs Hx Hfair.
+  assert (G : forall k n y, getc c (callers (run_n sched s0 n)) = Some y -> (measure y <= k)%nat ->
+              exists m, caller_finished (run_n sched s0 m) c = true).
+  { induction k as [|k IH]; intros n y Hy Hm.
+    - exists n. unfold caller_finished. rewrite Hy. apply measure_zero_finished. lia.
+    - destruct (Hfair n) as (m & Hnm & [Hf|[Hd|[Hc Hst]]]).
+      + now exists m.
+      + (* not enabled: impossible unless finished *)
+        destruct (run_n_measure sched s0 c (m - n) n y Hy) as (y1 & G1 & G2).
+        replace (m - n + n)%nat with m in G1 by lia.
+        destruct (finished y1) eqn:Ef.
+        * exists m. unfold caller_finished. now rewrite G1.
+        * pose proof (no_stranded_caller g g_guarded _ c y1 (run_n_done sched s0 m Hs) G1 Ef).
+          congruence.
+      + (* takes a step: the measure drops *)
+        destruct (run_n_measure sched s0 c (m - n) n y Hy) as (y1 & G1 & G2).
+        replace (m - n + n)%nat with m in G1 by lia.
+        destruct (Shutdown.step g (run_n sched s0 m) (sched m)) as [s'|] eqn:E; [|congruence].
+        destruct (own_step_decreases g _ _ _ c y1 E Hc G1) as (y2 & H1 & H2 & _).
+        apply (IH (S m) y2).
+        * cbn [run_n]. unfold step_or_stay. now rewrite E.
+        * lia. }
+  apply (G (measure x) 0%nat x); [exact Hx|lia].
+Qed.
+
+End Fair.
+
+(** * From the loss of the connection to serveDone *)
+
+Section ServeExit.
+Variable g : cfg.
+
+(** Once the reader has reported the end of the connection (or serve has
+    left its loop for any reason), serve's own remaining steps are always
+    enabled and lead to serveDone being closed: at most three of them. *)
+Theorem serve_exit_completes s :
+  (serve s = SRun -> readerr s = true) ->
+  exists acts s', Shutdown.exec g s acts = Some s' /\ serve s' = SDone /\ (List.length acts <= 3)%nat.
+Proof.
+  intros H. destruct (serve s) eqn:Es.
+  - specialize (H eq_refl).
+    exists [AReadErrS; AFail; ACloseDone]. cbn [Shutdown.exec Shutdown.step]. rewrite Es, H.
+    cbn [serve Shutdown.exec Shutdown.step]. eexists. repeat split. cbn. lia.
+  - exists [AFail; ACloseDone]. cbn [Shutdown.exec Shutdown.step]. rewrite Es.
+    cbn [serve Shutdown.exec Shutdown.step]. eexists. repeat split. cbn. lia.
+  - exists [ACloseDone]. cbn [Shutdown.exec Shutdown.step]. rewrite Es.
+    eexists. repeat split. cbn. lia.
+  - exists []. cbn. eexists. repeat split; [assumption|lia].
+Qed.
+
+(** Nobody but serve itself can take these steps away: readErr stays set and
+    serve stays out of its loop whatever the other threads do. *)
+Theorem serve_exit_stable s a s' :
+  Shutdown.step g s a = Some s' ->
+  a <> AReadErrS -> a <> AFail -> a <> ACloseDone -> (forall ok, a <> ATake ok) ->
+  serve s' = serve s /\ (readerr s = true -> readerr s' = true).
+Proof.
+  intros H N1 N2 N3 N4.
+  destruct a; try congruence; cbn [Shutdown.step] in H; break_step H;
+    cbn [serve readerr set_caller]; try (split; [reflexivity|tauto]); try (split; [congruence|tauto]).
+  all: try (exfalso; eapply N4; reflexivity).
+Qed.
+
+End ServeExit.
